@@ -6,7 +6,7 @@ SYS_TRUST = ["harness/core orchestrator (threads parked at the fastrace_verif yi
              "modelled, not verified: rtrb ring as an atomic FIFO with is_abandoned, fastant clock as a logical clock, "
              "parking_lot mutexes as mutual exclusion, HashMap order (reports compared as sorted lists)"]
 
-def sysprop(coq, profiles, quick_n, thorough_n, rule, assumptions=None, release_too=False, extra=None):
+def sysprop(coq, profiles, quick_n, thorough_n, rule, assumptions=None, release_too=True, extra=None):
     streams = [S.sys_stream_for("sys", profiles, quick_n, thorough_n)] + (extra or [])
     if release_too:
         streams.append(S.sys_stream_for("sysrel", profiles[:2], max(2, quick_n // 3), thorough_n // 2, release=True, shards_per_profile=4))
@@ -17,7 +17,9 @@ GEN_RULE = ("histories generated online from one PRNG state per history: weighte
             "(roots sampled/unsampled with boundary ids, children with 0-3 parents incl. no-op, local scopes, local "
             "collectors, properties/events by every route with closures that re-enter, cancel, adapters, thread "
             "spawn/exit) interleaved with single ring pushes and collector micro-steps (begin/pop/check/process); "
-            "profile-specific capacities; a history is non-trivial if it has >= 6 actions; distinct by action text")
+            "profile-specific capacities; a reporter may be installed again at any idle point; two profiles are also run against a "
+            "--release build of the harness and the library (debug assertions and overflow checks off); a history is non-trivial "
+            "if it has >= 6 actions; distinct by action text")
 
 PROPS = {
     "C12": {
@@ -33,8 +35,8 @@ PROPS = {
     },
     "C01": sysprop(["C01"], ["default", "exit", "local"], 250, 4000, GEN_RULE + "; plus live scenarios with the real background "
                    "thread (20 ms interval) and the real flush(): 1-3 worker threads, hand-off of spans, exit right after finishing; "
-                   "delivery without any further call within 10 s, or by the return of flush()",
-                   extra=[S.verdict_stream_for("live", "core", "live", 12, 300, shards=4), S.verdict_stream_for("aged", "core", "aged", 30, 1200, shards=4)]),
+                   "delivery without any further call within 10 s, or by the return of flush(); with a report interval of an hour, two overlapping flush() calls (the first inside a slow report()): each must return only after the spans its thread finished before are delivered",
+                   extra=[S.verdict_stream_for("live", "core", "live", 12, 300, shards=4), S.verdict_stream_for("cflush", "core", "cflush", 3, 60, shards=4), S.verdict_stream_for("aged", "core", "aged", 30, 1200, shards=4)]),
     "C07": sysprop(["C07"], ["mixed", "overload", "adapters", "local", "exit"], 200, 3000, GEN_RULE + "; plus tracing calls issued "
                    "from a thread-local destructor registered before / after fastrace's own thread-locals", release_too=True,
                    extra=[S.verdict_stream_for("teardown", "core", "teardown", 40, 1000, shards=4)]),
